@@ -1451,7 +1451,7 @@ func (mon) Plan(prop, tier string, seed int64) []drv.Shard {
 	}
 	dwells := []int{1300, 1300}
 	if thorough {
-		dwells = []int{1300, 1300, 3100, 3100, 11000}
+		dwells = []int{1300, 1300, 3100, 3100, 6000}
 	}
 	for p, d := range dwells {
 		a, _ := json.Marshal(shardArgs{Part: 9500 + p, Count: 8, Workers: 4, Dwell: d})
